@@ -185,7 +185,8 @@ def main(argv=None):
             known_hits.setdefault(v["key"], []).append((i, v))
         else:
             new.append((i, v))
-    repdir = os.path.join(common.VERIF, "replays", prop)
+    outbase = os.environ.get("VERIF_OUT", common.VERIF)
+    repdir = os.path.join(outbase, "replays", prop)
     shutil.rmtree(repdir, ignore_errors=True)
     for key, hits in sorted(known_hits.items()):
         print("KNOWN-FINDING: property=%s %s -- %s (%d case(s) this run)" % (
@@ -242,8 +243,8 @@ def main(argv=None):
         "wall_s": round(time.time() - t0, 2),
         "violations": len(new),
     }
-    os.makedirs(os.path.join(common.VERIF, "evidence"), exist_ok=True)
-    evpath = os.path.join(common.VERIF, "evidence", prop + ".json")
+    os.makedirs(os.path.join(outbase, "evidence"), exist_ok=True)
+    evpath = os.path.join(outbase, "evidence", prop + ".json")
     with open(evpath, "w") as f:
         json.dump(ev, f, indent=1, default=str)
         f.write("\n")
